@@ -309,7 +309,7 @@ def generate(rng, tier):
         srt = rng.sample(names, rng.randint(0, len(names)))
         cases.append({"kind": "free", "table": t, "deps": [[k, v] for k, v in deps.items()], "sorted": srt})
     # ---- (i) recipes
-    for _ in range(450 if quick else 9000):
+    for _ in range(450 if quick else 12000):
         cases.append(gen_recipe(rng))
     return cases
 
@@ -929,13 +929,6 @@ def directed_search(rng, disagreeing):
 
 
 def match_finding(case, obs, msg, findings):
-    """K16a: add_after_statements indexes the steps by sf_object, lookups name tables; a PersonContact step
-    (sf_object Contact) therefore shadows / replaces the Contact step for lookups to table Contact."""
-    if case.get("kind") != "recipe" or not msg.startswith("after["):
-        return None
-    for f in findings:
-        if f["id"] == "K16a":
-            tables = statics(case["recipe"])[0]
-            if "PersonContact" in tables and "Contact" in tables and "-> 'Contact':" in msg:
-                return "K16a"
+    # former finding K16a (steps indexed by sf_object: a PersonContact step stood in for the Contact step) was
+    # repaired by fix commit ae07041; its witnesses stay in corpus/C16 as regression cases and nothing is suppressed
     return None
